@@ -188,6 +188,34 @@ class Strategy:
         self.issues += ev.issues
         self.decided: List[str] = getattr(self, 'decided', [])
         self._collect()
+        self._settle_stores()
+
+    def _settle_stores(self):
+        """conditional values whose test is a window-zero test left open during the evaluation (made outside the interval loop, e.g. in a table of
+        border values computed beforehand) are settled now that the entry is read at a position relative to the interval k"""
+        from .truth import tri
+
+        def leaf(q):
+            return self._zero_leaf(q)
+
+        def settle(r: Rat) -> Rat:
+            for _ in range(8):
+                mp = {}
+                for a in sym.all_atoms(r):
+                    if sym.ATOMS.head(a) == 'gamma':
+                        args = sym.ATOMS.args(a)
+                        t = tri(args[0], leaf) if isinstance(args[0], Val) else None
+                        if t is not None and isinstance(args[1], Rat) and isinstance(args[2], Rat):
+                            mp[a] = args[1] if t else args[2]
+                if not mp:
+                    return r
+                r = sym.subst(r, mp)
+            return r
+        for sf in self.stores:
+            try:
+                sf.value, sf.lo, sf.hi, sf.index = settle(sf.value), settle(sf.lo), settle(sf.hi), settle(sf.index)
+            except (ZeroDivisionError, sym.Unknown):
+                pass
 
     def window_key(self, r: Rat) -> Optional[Tuple[str, int]]:
         """('AL' | 'AR', c) for entry k + c of the left / right window table, ('BL' | 'BR', c) for int(beta * entry)"""
@@ -221,31 +249,44 @@ class Strategy:
                 return ('B' + inner[0][0][1], inner[0][1])
         return None
 
-    def _decide_window_zero(self, p: Val) -> Optional[bool]:
-        def zero_test(q) -> Optional[Rat]:
-            if isinstance(q, P) and q.op == '==':
-                a, b = q.args
-                for u, v in ((a, b), (b, a)):
-                    if isinstance(u, Num) and u.is_const() and u.const() == 0 and isinstance(v, Num) and v.length is None \
-                            and is_window_quantity(v.r) and not v.r.is_const():
-                        return v.r
-            return None
+    def _in_interval_loop(self) -> bool:
+        """is the evaluation inside a loop that writes array samples (the interval loop), or outside every loop?"""
+        ev = getattr(self, 'ev', None)
+        loops = [l for l in (ev.loops if ev is not None else []) if getattr(l, 'node', None) is not None and isinstance(l.node, (ast.For, ast.While))]
+        if not loops:
+            return True
+        return any(isinstance(n_, ast.Subscript) and isinstance(n_.ctx, ast.Store) for n_ in ast.walk(loops[0].node))
 
-        def leaf(q) -> Optional[bool]:
-            r = zero_test(q)
-            if r is None:
-                return None
-            if self.tie is None:
-                return False            # general position
-            key = self.window_key(r)
-            if key is None:
-                self.unkeyed.append(str(q))
-                return False
-            if key in self.tie:
-                return True
-            if key[0] in ('BL', 'BR') and ('A' + key[0][1], key[1]) in self.tie:
-                return True             # int(beta * 0) == 0
+    def _zero_leaf(self, q, during_evaluation: bool = False) -> Optional[bool]:
+        r = None
+        if isinstance(q, P) and q.op == '==':
+            a, b = q.args
+            for u, v in ((a, b), (b, a)):
+                if isinstance(u, Num) and u.is_const() and u.const() == 0 and isinstance(v, Num) and v.length is None \
+                        and is_window_quantity(v.r) and not v.r.is_const():
+                    r = v.r
+                    break
+        if r is None:
+            return None
+        if self.tie is None:
+            return False            # general position
+        if during_evaluation and not self._in_interval_loop():
+            # a tie names entries relative to the interval being written (k, k - 1, k + 1): a test made in another loop (a table of border
+            # values computed beforehand) is about that loop's own position and stays open until its entry is read
+            return None
+        key = self.window_key(r)
+        if key is None:
+            self.unkeyed.append(str(q))
             return False
+        if key in self.tie:
+            return True
+        if key[0] in ('BL', 'BR') and ('A' + key[0][1], key[1]) in self.tie:
+            return True             # int(beta * 0) == 0
+        return False
+
+    def _decide_window_zero(self, p: Val) -> Optional[bool]:
+        def leaf(q) -> Optional[bool]:
+            return self._zero_leaf(q, during_evaluation=True)
         from .truth import tri
         t = tri(p, leaf)
         if t is not None:
